@@ -79,4 +79,40 @@ def sxSepState {α : Type} [Add α] [Zero α] [Mul α] [One α] [Conj α] (_dA d
       let pw := (List.replicate (kext - 1) nb).foldl (· * ·) 1
       t.1 * pw * (t.2.1 (i / dB) * t.2.2 (i % dB)) * conj (t.2.1 (j / dB) * t.2.2 (j % dB))).sum
 
+/-! ### the irrep-block path: index helpers and the reduced-state contraction
+(`symext.py:66-73`, `:135-153`, `:186`, `:298-306`) -/
+
+/-- `get_cvxpy_transpose0213_indexing(N0,N1,N2,N3)`: `arange(N0·N1·N2·N3).reshape(N2,N3,N0,N1).transpose(3,1,2,0).reshape(-1)` -/
+def idx0213 (N0 N1 N2 N3 : Nat) : Nat → Nat := npTranspose [N2, N3, N0, N1] [3, 1, 2, 0] id
+
+/-- the realignment of the input state in `is_ABk_symmetric_ext` / `get_ABk_symmetric_extension_boundary`:
+`rho.reshape(dA,dB,dA,dB).transpose(0,2,1,3).reshape(dA·dA, dB·dB)` -/
+def sxRealign {α : Type} (dA dB : Nat) (ρ : Nat → Nat → α) : Nat → Nat → α :=
+  ofFlat (dB * dB) (npTranspose [dA, dB, dA, dB] [0, 2, 1, 3] (toFlat (dA * dB) ρ))
+
+/-- the right-hand side of the last constraint of `get_ABk_symmetric_extension_boundary`:
+`eye(dA·dB) realigned / (dA·dB) + beta * cvx_rho`, `R` = the (already realigned) direction `cvx_rho.value`, `invN = 1/(dA·dB)` -/
+def extRaySigma {α : Type} [Add α] [Mul α] [Zero α] [One α] (dA dB : Nat) (invN β : α) (R : Nat → Nat → α) : Nat → Nat → α :=
+  fun i j => sxRealign dA dB (fun r c => if r = c then (1 : α) else 0) i j * invN + β * R i j
+
+/-- `cvxpy.reshape(P, size, order='F')`: flat read-out in column-major order of an `n×n` matrix -/
+def flatF {α : Type} (n : Nat) (P : Nat → Nat → α) : Nat → α := fun t => P (t % n) (t / n)
+
+/-- `tmp3 = cvxpy.reshape(reshape(P,'F')[idx0213(dA,x)], (dA·dA, x·x), order='F')` for one irrep block of dimension `x` -/
+def irrepGather {α : Type} (dA x : Nat) (P : Nat → Nat → α) : Nat → Nat → α :=
+  fun r c => flatF (x * dA) P (idx0213 dA x dA x (r + c * (dA * dA)))
+
+/-- contribution of one block to `cvx_rdm` (shape `(dA·dA, dB·dB)`): `tmp3 @ coeffB.reshape(x·x, dB·dB)`; `C` is the flat read-out of the
+(numerically derived, hence a parameter here) coefficient tensor `coeffB[i,j,b,b']` -/
+def irrepBlockRdm {α : Type} [Add α] [Mul α] [Zero α] (dA x dB : Nat) (P : Nat → Nat → α) (C : Nat → α) : Nat → Nat → α :=
+  fun r c => sumRange (x * x) fun t => irrepGather dA x P r t * C (t * (dB * dB) + c)
+
+/-- `cvx_rdm = sum(blocks)`; `blocks` = list of `(x, P, C)` -/
+def irrepRdm {α : Type} [Add α] [Mul α] [Zero α] (dA dB : Nat) (blocks : List (Nat × (Nat → Nat → α) × (Nat → α))) : Nat → Nat → α :=
+  fun r c => (blocks.map fun b => irrepBlockRdm dA b.1 dB b.2.1 b.2.2 r c).sum
+
+/-- left-hand side of the normalisation constraint `sum(trace(P_i) * multiplicity_i) == 1` -/
+def irrepTrace {α : Type} [Add α] [Mul α] [Zero α] (dA : Nat) (blocks : List (Nat × (Nat → Nat → α) × α)) : α :=
+  (blocks.map fun b => sumRange (b.1 * dA) (fun t => b.2.1 t t) * b.2.2).sum
+
 end Numqi.Ent
